@@ -2,3 +2,7 @@ claim("C02", "DESIGN.md 5/C02",
       "Lean 4 theorems about a transcription of Server.get_paths/PurePosixPath (all strings, by induction) + exhaustive/random differential run against the live get_paths + containment/walk oracle",
       "Theorems real_inside_base / virtual_absnormal / resolves_to_walk / alias_invariant hold for every argument string, base and normal cwd (unbounded, kernel-checked); the model is tied to the code by an exhaustive bounded + random differential run on every check.",
       "Trusted: Lean kernel; pathlib semantics as transcribed (sampled); POSIX flavour only; home_path normal.")
+claim("C05", "DESIGN.md 5/C05",
+      "Lean 4 reference model of the session (guard stacks regenerated from the live decorators) with theorems about the model + exhaustive-to-a-bound/random differential run of every command against the real dispatcher under a simulated network + property oracle on the transcript",
+      "The theorems are about the sequential reference model for all states and commands; that the code conforms to the model is established by enumeration up to the bound (all command pairs in three session contexts) and sampling beyond it - partial, and labelled so.",
+      "Trusted: Lean kernel; the translator's decorator-stack recovery (cross-checked by the behavioural run); in-memory network instead of sockets; asyncio scheduling.")
